@@ -142,8 +142,9 @@ func AttrsJSON(a *d2graph.Attributes) (json.RawMessage, string) {
 
 // CanonOpts tunes the projection.
 type CanonOpts struct {
-	SortObjects bool // ignore Objects/Edges order (sorted by AbsID)
-	LowerIDs    bool
+	SortObjects  bool // ignore Objects/Edges order (sorted by AbsID)
+	SortChildren bool // ignore ChildrenArray order
+	LowerIDs     bool
 }
 
 func CanonBoardOf(g *d2graph.Graph, kind string, o CanonOpts) *canonBoard {
@@ -162,6 +163,9 @@ func CanonBoardOf(g *d2graph.Graph, kind string, o CanonOpts) *canonBoard {
 		}
 		for _, ch := range ob.ChildrenArray {
 			co.Children = append(co.Children, id(ch.ID))
+		}
+		if o.SortChildren {
+			sort.Strings(co.Children)
 		}
 		co.Attrs, co.Near = AttrsJSON(&ob.Attributes)
 		if ob.Class != nil {
